@@ -603,7 +603,7 @@ PROPS = {
         module="Hb.Props.C09",
         more_modules=["Hb.Props.C09Wrappers"],
         ties=[("scen", "iter", 300, 10000), ("scen", "mixed", 200, 6000), ("scen", "saturate", 40, 2000),
-              ("scen", "table", 150, 5000), ("scen", "set", 100, 3000), ("custom", extras_oracle), ("t1", {})],
+              ("scen", "table", 150, 5000), ("scen", "set", 100, 3000), ("scen", "panic-mixed", 6, 150), ("custom", extras_oracle), ("t1", {})],
         backends=["sse2", "portable"],
         design="§7 C09",
         text="Lean theorems: in every table state satisfying the structural invariant (proved preserved elsewhere; "
